@@ -1036,7 +1036,12 @@ class TeX(object):
         self.cast()
 
         """
-        return type(self.normalize(tokens))
+        value = self.normalize(tokens)
+        # Tokens that cannot be joined (e.g. a brace group that has been
+        # expanded) come back as a node: the string is its text
+        if value is not None and not isinstance(value, str):
+            value = getattr(value, 'textContent', value)
+        return type(value)
 
     def castLabel(self, tokens, **kwargs):
         """
